@@ -31,7 +31,7 @@ from vlib.shrink import shrink_seq
 
 ID = "C16"
 LEVEL = "exploration"
-BUDGET = {"quick": 75, "thorough": 800}
+BUDGET = {"quick": 100, "thorough": 900}
 RULE = (
     "case = history of 2-12 calls (parse / encode / decode_simple_value / "
     "pvl_validate dialect parse+encode / pvl_translate encoder) with generated "
@@ -467,11 +467,34 @@ def atheris_shard(acc, seed, runs, use_corpus):
     run(acc, ID, seed, runs, use_corpus, max_len=400, prop=sys.modules[__name__])
 
 
+# the same spelling once as a name and once as a string value, writable and not
+SPELLINGS = ["NULL", "true", "False", "x-", "N/A", "12:00", "END", "a b", "Group", "1e3",
+             "caf\u00e9", "2001-001"]
+FIXED_SPECS = [[[w, 1]] for w in SPELLINGS] + [[["k", w]] for w in SPELLINGS] + \
+    [[[w, {"grp": [["x", 1]]}]] for w in SPELLINGS[:6]] + \
+    [[["s", {"seq": [w, "other"]}]] for w in SPELLINGS[:6]]
+
+
+def fixed_encodes(acc, enc):
+    """Every ordered pair of the small modules above on one encoder instance (then the
+    first one again): a spelling that was met as a name must still be judged as a value
+    when it comes as a value, refused or not."""
+    for a in FIXED_SPECS:
+        for b in FIXED_SPECS:
+            hist = [("encode", enc, a), ("encode", enc, b), ("encode", enc, a)]
+            r = run_history(hist)
+            acc.case(key=repr(hist), nontrivial=True)
+            acc.event("fixed-encode-histories")
+            if r is not None:
+                acc.fail(r[0], dict(history=[list(c) for c in hist]), r[1])
+
+
 def shards(tier, seed):
     n = 110 if tier == "quick" else 1500
     out = [("random_histories", dict(n=n, seed=seed * 1000 + j)) for j in range(16)]
     out = [("fixed_histories", dict(part=p))
            for p in list(PARSERS) + ["v-" + dn for dn in VALIDATE_FRESH]] + out
+    out += [("fixed_encodes", dict(enc=e)) for e in ENCODERS]
     out += [("soak", dict(who=w, n=400 if tier == "quick" else 5000))
             for w in list(PARSERS) + list(ENCODERS)]
     if tier == "thorough":
